@@ -50,7 +50,7 @@ const REQUEST_BUF_LEN: usize = BUFFER_SIZE + 64;
 /// Enough for:
 /// - IPv6 announce response with 112 peers
 /// - scrape response for 170 info hashes
-const RESPONSE_BUF_LEN: usize = 2048;
+pub(super) const RESPONSE_BUF_LEN: usize = 2048;
 
 const USER_DATA_RECV_V4: u64 = u64::MAX;
 const USER_DATA_RECV_V6: u64 = u64::MAX - 1;
